@@ -120,7 +120,7 @@ class SmiV2Lexer(AbstractLexer):
 
     # Skipping MACRO
     def t_MACRO(self, t):
-        r'MACRO'
+        r'MACRO(?!-(?!-)|[a-zA-Z0-9])'
         t.lexer.begin('macro')
         return t
 
@@ -142,7 +142,7 @@ class SmiV2Lexer(AbstractLexer):
 
     # Skipping EXPORTS
     def t_EXPORTS(self, t):
-        r'EXPORTS'
+        r'EXPORTS(?!-(?!-)|[a-zA-Z0-9])'
         t.lexer.begin('exports')
         return t
 
@@ -160,7 +160,7 @@ class SmiV2Lexer(AbstractLexer):
 
     # Skipping CHOICE
     def t_CHOICE(self, t):
-        r'CHOICE'
+        r'CHOICE(?!-(?!-)|[a-zA-Z0-9])'
         t.lexer.begin('choice')
         return t
 
